@@ -36,6 +36,22 @@ PFIELD = {1: "shapes", 2: "SVD oracle: X != U S Vt", 3: "SVD oracle: U^H U != I"
           11: "model: Q does not come back", 12: "model: all modes but data do not come back", 13: "model: C V != V diag(s^2/n)"}
 
 
+def cutoff_relative():
+    """which cut-off variant the source currently has, as read off by the translator (Gen/T5whiten.v)"""
+    import os
+    import re
+    try:
+        txt = open(os.path.join(C.COQ, "Gen", "T5whiten.v")).read()
+    except OSError:
+        return False
+    m = re.search(r"Definition fmp_cutoff_relative : bool := (true|false)\.", txt)
+    return bool(m and m.group(1) == "true")
+
+
+def threshold(lam, relative):
+    return EPS * len(lam) * float(np.max(lam)) if relative else EPS
+
+
 # ---------------------------------------------------------------- generators
 def rnd(rng, a, b, cplx):
     M = rng.standard_normal((a, b))
@@ -368,7 +384,7 @@ def run_pca_oracles(ctx, rng, N):
 
 
 # ---------------------------------------------------------------- Coq correspondence
-def wh_case(rng, i):
+def wh_case(rng, i, relative):
     cplx = (i % 3 == 2)
     dask = (i % 5 == 3)
     p = int(rng.integers(1, 6))
@@ -385,15 +401,16 @@ def wh_case(rng, i):
     except Exception as e:
         return dict(error=e, X=X, P=P, alpha=alpha, dask=dask, cond=cond, scale=scale)
     Cm, lam, V = spectrum_of_cov(X)
-    if lam.min() <= 0 or np.any((lam > EPS / 8) & (lam < EPS * 8)):
+    thr = threshold(lam, relative)
+    if lam.min() <= 0 or np.any((lam > thr / 8) & (lam < thr * 8)):
         return None
     power = (alpha - 1) / 2
     d = lam ** power
-    kept = lam[lam > EPS]
+    kept = lam[lam > thr]
     condk = float(kept.max() / kept.min()) if kept.size else 1.0
     rt = max(RT, 16 * EPS * condk)
     return dict(n=n, p=p, m=m, cplx=cplx, dask=dask, alpha=alpha, a=a, b=b, power=power, rt=rt, cond=cond, scale=scale, X=X, V=V, lam=lam, d=d,
-                dinv=1.0 / d, P=P, dropped=bool((lam <= EPS).any()), **rec)
+                dinv=1.0 / d, P=P, dropped=bool((lam <= thr).any()), **rec)
 
 
 def wh_text(r):
@@ -435,9 +452,10 @@ def pca_text(r):
 
 def run_correspondence(ctx):
     rng = ctx.rng.child("c16case").np
+    relative = cutoff_relative()
     groups = {"wr": [], "wc": [], "pr": [], "pc": []}
     for i in range(ctx.n(70, 1000)):
-        r = wh_case(rng, i)
+        r = wh_case(rng, i, relative)
         if r is None:
             ctx.dist["case-skipped:eigenvalue-near-cut-off"] += 1
             continue
@@ -455,13 +473,13 @@ def run_correspondence(ctx):
                  tag="case/pca/%s/%s" % ("complex" if r["cplx"] else "real", type(r["n_modes"]).__name__),
                  sample=dict(kind="pca-correspondence", shape=[r["n"], r["p"]], n_modes=r["n_modes"], k=r["k"], complex=r["cplx"], solver=r["solver"]))
         groups["pc" if r["cplx"] else "pr"].append(r)
-    spec = {"wr": ("check_whs_f64", wh_text, WFIELD), "wc": ("check_whs_c64", wh_text, WFIELD),
+    spec = {"wr": ("check_whs_f64 fmp_cutoff_relative", wh_text, WFIELD), "wc": ("check_whs_c64 fmp_cutoff_relative", wh_text, WFIELD),
             "pr": ("check_pcas_f64", pca_text, PFIELD), "pc": ("check_pcas_c64", pca_text, PFIELD)}
     files, plan = [], []
     for g, cases in groups.items():
         fn, text, fields = spec[g]
         for sh in range(0, len(cases), 40):
-            body = [C.COQ_HEADER, "From XV Require Import Base.Scalar Base.Mat Base.Instances Model.Whiten Model.WhitenCase.\n",
+            body = [C.COQ_HEADER, "From XV Require Import Base.Scalar Base.Mat Base.Instances Model.Whiten Model.WhitenCase Gen.T5whiten.\n",
                     "Definition cases := [\n" + ";\n".join(text(r) for r in cases[sh:sh + 40]) + "].\n",
                     "Eval vm_compute in %s %s cases.\n" % (fn, C.cf(RT))]
             f = C.write_case_file("C16", "%s%d" % (g, sh // 40), "\n".join(body))
